@@ -778,6 +778,19 @@ pub fn run_c12(tier: Tier) -> Report {
     let ref2_v1 = noise_intra(shdr(32, 16, 0, 0, 5, 1), seed);
     let ref2_plus = noise_intra(Hdr::Std(StdHdr::custom(32, 16, false, 0, 5)), seed);
     let ref_base = noise_intra(Hdr::Std(StdHdr::baseline(1, false, 0, 5)), seed);
+    // sub-QCIF signalled in PLUSPTYPE (source format 1 in OPPTYPE), with or without unrestricted vectors
+    let sq_plus = |inter: bool, tr: u8, umv: bool| -> Hdr {
+        let mut h = StdHdr::custom(128, 96, inter, tr, 5);
+        let pl = h.plus.as_mut().unwrap();
+        pl.opp.srcfmt = 1;
+        if umv {
+            pl.opp.modes |= 0x200;
+            pl.uui = 1;
+        }
+        Hdr::Std(h)
+    };
+    let ref_sq_umv = noise_intra(sq_plus(false, 0, true), seed);
+    let ref_sq_plus = noise_intra(sq_plus(false, 0, false), seed);
     for p in -32..=31i32 {
         for d in -32..=31i8 {
             for comp in 0..3usize {
@@ -801,7 +814,14 @@ pub fn run_c12(tier: Tier) -> Report {
                 if comp == 2 || tier.thorough() {
                     let mut m = mbs.clone();
                     m.extend((2..48).map(|_| Mb::NotCoded));
-                    cases.push(vec![ref_base.clone(), Pic { hdr: Hdr::Std(StdHdr::baseline(1, true, 1, 5)), mbs: m }]);
+                    cases.push(vec![ref_base.clone(), Pic { hdr: Hdr::Std(StdHdr::baseline(1, true, 1, 5)), mbs: m.clone() }]);
+                    // mixed header histories on one decoder (all sub-QCIF, so the format value does not
+                    // change): the mode of the *previous* picture must not decide how this one's vectors are
+                    // read - after a PLUSPTYPE picture with unrestricted vectors switched on, after a
+                    // PLUSPTYPE picture without, and a PLUSPTYPE picture after a plain one
+                    cases.push(vec![ref_sq_umv.clone(), Pic { hdr: Hdr::Std(StdHdr::baseline(1, true, 1, 5)), mbs: m.clone() }]);
+                    cases.push(vec![ref_sq_plus.clone(), Pic { hdr: Hdr::Std(StdHdr::baseline(1, true, 1, 5)), mbs: m.clone() }]);
+                    cases.push(vec![ref_base.clone(), Pic { hdr: sq_plus(true, 1, false), mbs: m }]);
                 }
                 if comp < 2 || tier.thorough() {
                     // 3x3 grid: all of row 0 and macroblock 3 carry p, centre macroblock codes d
@@ -1111,7 +1131,7 @@ pub fn run_c12(tier: Tier) -> Report {
 
     r.finish();
     rep.set_rule(
-        "whole P pictures compared with the reference decoder: all 64x64 (predictor, differential) pairs per component and jointly, in a 2-macroblock row (under four header kinds: Sorenson version 0 and 1, H.263 PLUSPTYPE without optional modes, H.263 plain PTYPE) and in the centre of a 3x3 grid; all four-vector sums -128..=124 x 3 decompositions x 2 components x 2 positions; every assignment of {INTER, INTER4V, INTRA, not-coded} to the existing neighbours of every target position on 9 macroblock grids x target {INTER, INTER4V}; every MVD codeword; every assignment of zero / non-zero vectors inside one and two four-vector neighbours of every target position; with Annex D in PLUSPTYPE (UUI = 1): every legal vector at widths and heights on both sides of every range-class boundary; thirty streams of different vector modes (extended range next to the four base header kinds, same temporal references) decoded in turn by their own decoders on one thread; \
+        "whole P pictures compared with the reference decoder: all 64x64 (predictor, differential) pairs per component and jointly, in a 2-macroblock row (under four header kinds: Sorenson version 0 and 1, H.263 PLUSPTYPE without optional modes, H.263 plain PTYPE, and three mixed histories: a plain-PTYPE picture after a PLUSPTYPE picture with and without unrestricted vectors, a PLUSPTYPE picture after a plain one) and in the centre of a 3x3 grid; all four-vector sums -128..=124 x 3 decompositions x 2 components x 2 positions; every assignment of {INTER, INTER4V, INTRA, not-coded} to the existing neighbours of every target position on 9 macroblock grids x target {INTER, INTER4V}; every MVD codeword; every assignment of zero / non-zero vectors inside one and two four-vector neighbours of every target position; with Annex D in PLUSPTYPE (UUI = 1): every legal vector at widths and heights on both sides of every range-class boundary; thirty streams of different vector modes (extended range next to the four base header kinds, same temporal references) decoded in turn by their own decoders on one thread; \
          non-trivial = all (each case has a non-zero predictor, differential or neighbour)",
     );
     rep.sample(json!({"sweep": "pairs", "case": "32x16: MB0 vector (+15.5, 0), MB1 differential +0.5 -> expected (-16.0, 0)"}));
